@@ -24,7 +24,8 @@ def slot(q, u, bs, ty):
     hx = "hex64" if ft == "f64" else "hex32"
     arith = "" if q["kind"] == "TemperatureKind" else f"""
         "add" => format!("{{}} {{}}", sh((mk(p(a[1])) + mk(p(a[2]))).value), {hx}(p(a[2]).norm())),
-        "sub" => format!("{{}} {{}}", sh((mk(p(a[1])) - mk(p(a[2]))).value), {hx}(p(a[2]).norm())),"""
+        "sub" => format!("{{}} {{}}", sh((mk(p(a[1])) - mk(p(a[2]))).value), {hx}(p(a[2]).norm())),
+        "sum" => format!("{{}} {{}}", sh(vec![mk(p(a[1])), mk(p(a[2])), mk(p(a[1]))].into_iter().sum::<Q>().value), sh(vec![p(a[1]), p(a[2]), p(a[1])].into_iter().sum::<V>())),"""
     return f"""    type V = {rt};
     type Q = uom::si::{q['module']}::{q['alias']}<{B.units_type(bs, ty)}, V>;
     type N = uom::si::{q['module']}::{u['name']};
@@ -81,7 +82,7 @@ def run(ctx):
                     for _ in range(6):
                         a_ = rng.choice(zs)
                         b_ = rng.choice(zs)
-                        for op in (("add", "sub", "mul", "eq") if q["kind"] != "TemperatureKind" else ("mul", "eq")):
+                        for op in (("add", "sub", "mul", "eq", "sum") if q["kind"] != "TemperatureKind" else ("mul", "eq")):
                             cid = f"z{len(cases)}"
                             cases.append((cid, sl, [op, f"{FC.hexbits(a_[0], ft)},{FC.hexbits(a_[1], ft)}", f"{FC.hexbits(b_[0], ft)},{FC.hexbits(b_[1], ft)}"]))
                             meta[cid] = (op, ty, ft, bs, q, u, a_, b_, sl)
@@ -96,6 +97,8 @@ def run(ctx):
         op, ty, ft, bs, q, u, a_, b_, _ = meta[cid]
         got = impl.get(cid)
         if got in (None, "PANIC", "BADOP"):
+            continue
+        if op == "sum":
             continue
         nrm = got.split(" ")[1]
         if nrm == "nan":
@@ -123,6 +126,7 @@ def run(ctx):
         return FC.bits_to_frac(b_, ft)
 
     unexpected, known_cases, holds, out_of_premise = [], 0, 0, 0
+    sums_checked = 0
     hist, distinct = {}, set()
     for cid, sl, args in cases:
         op, ty, ft, bs, q, u, a_, b_, _ = meta[cid]
@@ -133,6 +137,12 @@ def run(ctx):
             unexpected.append((cid, f"harness answered {got}", None))
             continue
         res = got.split(" ")[0]
+        if op == "sum":
+            # Sum is the one addition that is right on the unchanged tree: the storage type's own sum of the stored values, bit for bit
+            sums_checked += 1
+            if res != got.split(" ")[1]:
+                unexpected.append((cid, f"the sum of complex quantities {res} is not the storage type's sum of the stored values {got.split(' ')[1]}", None))
+            continue
         m = model.get(cid)
         if m is None:
             continue
@@ -196,6 +206,7 @@ def run(ctx):
     for cid, why, _m in unexpected[:5]:
         ctx.violation(replay_case(cid, {"spec": "C20 (outside the known finding complex-modulus)", "detail": why}))
     cov = ctx.coverage
+    cov["sums_checked"] = sums_checked
     cov["evaluations"] = len(cases)
     cov["distinct_nontrivial"] = len(distinct)
     cov["rule"] = ("Complex64/Complex32 x base sets {SI, km-g-h} x selected units: new/get of numbers in all quadrants, on both axes, with +-0 imaginary part, random; same-base "
